@@ -75,6 +75,8 @@ class _PatEval:
             return ("tuple", *[self._ev(x) for x in e.elts])
         if isinstance(e, ast.List):
             return ("list", *[self._ev(x) for x in e.elts])
+        if isinstance(e, ast.Set):
+            return ("set", *[self._ev(x) for x in e.elts])
         if isinstance(e, ast.Starred):
             return ("star", self._ev(e.value))
         if isinstance(e, ast.IfExp):
